@@ -67,6 +67,28 @@ def make_class(param, idx):
         n=param.Number(default=1, bounds=(0, 10)), e=param.Event(), k=param.Parameter(default='K', constant=True)))
 
 
+def _old_batch(P):
+    import contextlib
+    import warnings
+
+    @contextlib.contextmanager
+    def cm(o):
+        # (the alias may warn about its deprecation when entered)
+        with warnings.catch_warnings():
+            warnings.simplefilter('ignore')
+            block = P.batch_watch(o)
+            block.__enter__()
+        try:
+            yield
+        except BaseException:
+            import sys
+            if not block.__exit__(*sys.exc_info()):
+                raise
+        else:
+            block.__exit__(None, None, None)
+    return cm
+
+
 def gen_prog(rng, depth=0):
     ops = []
     for _ in range(rng.randint(1, 4 if depth else 6)):
@@ -78,7 +100,8 @@ def gen_prog(rng, depth=0):
             keys = rng.sample(NAMES + ['n', 'e'], rng.randint(1, 3))
             ops.append(('update', [(k, rng.randint(0, 10) if k == 'n' else True if k == 'e' else tok()) for k in keys]))
         elif c < 0.62:
-            ops.append(('batch', gen_prog(rng, depth + 1)))
+            # (one in four through the deprecated alias of the block)
+            ops.append(('batch' if rng.random() < 0.75 else 'batchold', gen_prog(rng, depth + 1)))
         elif c < 0.7:
             ops.append(('discard', gen_prog(rng, depth + 1)))
         elif c < 0.78:
@@ -99,7 +122,7 @@ def gen_prog(rng, depth=0):
 def shape(prog):
     out = []
     for op in prog:
-        if op[0] in ('batch', 'discard', 'editconst'):
+        if op[0] in ('batch', 'batchold', 'discard', 'editconst'):
             out.append((op[0], shape(op[1])))
         elif op[0] == 'updatectx':
             out.append((op[0], len(op[1]), shape(op[2])))
@@ -118,7 +141,7 @@ def count_sites(prog, acc=None, path=()):
         if op[0] == 'update':
             for pos in range(len(op[1]) + 1):
                 acc.append(('updatekey', p, pos))
-        elif op[0] in ('batch', 'discard', 'editconst'):
+        elif op[0] in ('batch', 'batchold', 'discard', 'editconst'):
             acc.append(('body', p))
             count_sites(op[1], acc, p)
         elif op[0] == 'updatectx':
@@ -235,8 +258,8 @@ class Exec:
                                 self.touch(kk, None, restore=True)
                     finally:
                         self.depth_nesting -= 1
-            elif k in ('batch', 'discard', 'editconst'):
-                cm = {'batch': P.batch_call_watchers, 'discard': P.discard_events, 'editconst': P.edit_constant}[k]
+            elif k in ('batch', 'batchold', 'discard', 'editconst'):
+                cm = {'batch': P.batch_call_watchers, 'batchold': _old_batch(P), 'discard': P.discard_events, 'editconst': P.edit_constant}[k]
                 self.depth_nesting += 1
                 try:
                     with cm(o):
